@@ -33,8 +33,10 @@ class QuoteStub:
         self.u = []  # (arg, kwargs)
 
     def quote(self, s, safe="/", encoding=None, errors=None):
-        tok = "Q%dq" % len(self.q)
-        if isinstance(s, bytes):
+        tok = "/Q%dq" % len(self.q)
+        from vk.symbytes import SymBytes
+
+        if isinstance(s, (bytes, SymBytes)):
             self.q.append((s, {"safe": safe, "encoding": encoding, "errors": errors, "bytes": True}, tok))
         else:
             self.q.append((s, {"safe": safe, "encoding": encoding, "errors": errors}, tok))
@@ -45,7 +47,9 @@ class QuoteStub:
         for (arg, kw, tok) in self.q:
             if s == tok:
                 if kw.get("bytes"):
-                    return arg.decode("utf-8", "surrogateescape")
+                    from vk.symbytes import text_of
+
+                    return text_of(arg)
                 return arg
         return s
 
@@ -73,3 +77,85 @@ def skeleton(s: str) -> str:
 
 def proto(kind, cfg, selector="/dir", wfile=None):
     return dl.make_protocol(kind, selector, cfg, wfile if wfile is not None else hx.ListWriter())
+
+
+# ------------------------------------------------------------------ independent link extractors (written from the wire formats)
+
+
+def extract(kind, text):
+    """Returns (type_or_None, display_name, target) from one rendered entry.
+    kinds: 0 gopher, 1/6 gopher+ (not used), 2 http, 3 wap, 4 gemini, 5 spartan"""
+    if kind == 0:
+        line = text[:-2] if text.endswith("\r\n") else text
+        f = line.split("\t")
+        return (f[0][0:1], f[0][1:], (f[1], f[2], f[3]) if len(f) > 3 else None)
+    if kind == 2:
+        name = _between(text, "<TT>", "</TT>")
+        href = _between(text, '<A HREF="', '"') if '<A HREF="' in text else (_between(text, 'ACTION="', '"') if 'ACTION="' in text else None)
+        return (None, unescape(name), href)
+    if kind == 3:
+        if "<a " in text:
+            href = _between(text, 'href="', '"')
+            name = _between(text[text.index("<a "):], ">", "</a>")
+        else:
+            href = _between(text, '<go method="get" href="', '"') if "<go " in text else None
+            name = text[: text.index("<br/>")]
+        return (None, unescape(name), href)
+    if kind in (4, 5):
+        line = text[:-1] if text.endswith("\n") else text
+        if line.startswith("=> ") or line.startswith("=: "):
+            rest = line[3:]
+            url, _, desc = rest.partition(" ")
+            return ("7" if line.startswith("=:") else None, desc, url)
+        return ("i", line, None)
+    raise ValueError(kind)
+
+
+def _between(s, a, b):
+    i = s.index(a) + len(a)
+    j = s.index(b, i)
+    return s[i:j]
+
+
+def unescape(s):
+    return s.replace("&lt;", "<").replace("&gt;", ">").replace("&quot;", '"').replace("&#x27;", "'").replace("&amp;", "&")
+
+
+def client_request(kind, target, search=None):
+    """What a client sends to follow `target` (as extracted from a listing) with protocol `kind`."""
+    if kind == 0:
+        return target + ("\t" + search if search else "") + "\r\n", False
+    if kind in (1, 6):
+        return target + "\t" + (search + "\t" if search else "") + "+\r\n", False
+    if kind in (2, 3):
+        return "GET " + target + ("?searchrequest=" + search if search else "") + " HTTP/1.0\r\n", False
+    if kind == 4:
+        return "gemini://srv.example" + target + ("?" + search if search else "") + "\r\n", True
+    if kind == 5:
+        return "srv.example " + target + " 0\r\n", False
+    raise ValueError(kind)
+
+
+def follow(kind, request, tls, cfg, body=b""):
+    """Run the real request path (protocol detection + handle) with a recording handler layer.
+    Returns [(selector, searchrequest)] as handed to handler selection, and the protocol class name."""
+    from pygopherd import GopherExceptions
+    from pygopherd.handlers import HandlerMultiplexer as HM
+    from pygopherd.protocols import ProtocolMultiplexer as PM
+
+    seen = []
+
+    def getHandler(selector, searchrequest, protocol, config, handlerlist=None, vfs=None):
+        seen.append((selector, searchrequest))
+        raise GopherExceptions.FileNotFound(selector, "stub", protocol)
+
+    w = hx.ListWriter()
+    rf = hx.LineReader([]) if not body else hx.BytesReader(body)
+    p = PM.getProtocol(request, hx.make_server(cfg), hx.make_rh(tls), rf, w, cfg)
+    saved = HM.getHandler
+    HM.getHandler = getHandler
+    try:
+        p.handle()
+    finally:
+        HM.getHandler = saved
+    return seen, type(p).__name__
